@@ -249,8 +249,9 @@ func (d Diff) RenderPatch() (string, error) {
 				Value: e,
 			})
 		}
-		slices.Reverse(element.Add)
-		for _, e := range element.Add {
+		adds := slices.Clone(element.Add)
+		slices.Reverse(adds)
+		for _, e := range adds {
 			if isVoid(element.Add[0]) {
 				continue
 			}
@@ -273,17 +274,21 @@ func (d Diff) RenderMerge() (string, error) {
 		// A noop JSON Merge Patch should be an empty object
 		return "{}", nil
 	}
-	for _, e := range d {
+	// Work on a copy: the caller's diff keeps its void additions.
+	d2 := make(Diff, len(d))
+	for j, e := range d {
 		if !e.Metadata.Merge {
 			return "", fmt.Errorf("cannot render non-merge element as merge")
 		}
+		e.Add = slices.Clone(e.Add)
 		for i := range e.Add {
 			if isVoid(e.Add[i]) {
 				e.Add[i] = jsonNull{}
 			}
 		}
+		d2[j] = e
 	}
-	mergePatch, err := voidNode{}.Patch(d)
+	mergePatch, err := voidNode{}.Patch(d2)
 	if err != nil {
 		return "", err
 	}
